@@ -1,2 +1,8 @@
 import SunriseVerif.Model.Dec
+import SunriseVerif.Model.Bank
+import SunriseVerif.Model.Convert
+import SunriseVerif.Lemmas.Dec
 import SunriseVerif.Gen.KernelsCL
+import SunriseVerif.Spec.C05
+import SunriseVerif.Props.C05
+import SunriseVerif.Props.C13
